@@ -644,6 +644,8 @@ def r10_reader_decoding(a, tier):
                 continue
             builtin = isinstance(c.func, ast.Name)
             mode_e = (c.args[1] if builtin and len(c.args) > 1 else c.args[0] if not builtin and c.args else next((k.value for k in c.keywords if k.arg == 'mode'), None))
+            if isinstance(mode_e, ast.Name) and isinstance(f.module.assigns.get(mode_e.id), ast.Constant):
+                mode_e = f.module.assigns[mode_e.id]  # a module-level constant
             mode = mode_e.value if isinstance(mode_e, ast.Constant) and isinstance(mode_e.value, str) else ('r' if mode_e is None else None)
             if mode is None:
                 raise AnalysisError(f'C19.R10: open() with a computed mode in {f.qualname}')
@@ -653,6 +655,8 @@ def r10_reader_decoding(a, tier):
                 continue
             n += 1
             err = next((k.value for k in c.keywords if k.arg == 'errors'), None)
+            if isinstance(err, ast.Name) and isinstance(f.module.assigns.get(err.id), ast.Constant):
+                err = f.module.assigns[err.id]
             policy = err.value if isinstance(err, ast.Constant) else None
             ok = policy in _TOLERANT
             rep.add({'fn': f.qualname, 'open': norm(c)[:90], 'text_read': True, 'errors_policy': policy, 'ok': ok})
